@@ -243,6 +243,8 @@ pub fn run(ctx: &Ctx) {
     ctx.assume("a sign glued to the following digits belongs to that literal; numbers inside variable definitions/uses are re-labelled by design and not checked for exactness");
     ctx.run_table(&Spans, "regressions", regressions(), false);
     ctx.run_generated(&Spans, ctx.tier.pick(150_000, 1_500_000), case_strategy);
+    // lines with unit quantities of user-defined families (unit word after or before the value)
+    ctx.run_generated(&crate::custom_units::CustomUnits, ctx.tier.pick(300, 5_000), || crate::custom_units::case_strategy("C17"));
     if ctx.tier == crate::engine::Tier::Thorough {
         crate::fuzzdec::campaign(ctx, "C17", "c17_spans");
     }
@@ -251,6 +253,7 @@ pub fn run(ctx: &Ctx) {
 pub fn replay(w: &mut Worker, sub: &str, case: &serde_json::Value) -> Option<Verdict> {
     match sub {
         "spans" => crate::engine::replay_case(&Spans, w, case),
+        "custom-units" => crate::custom_units::replay(w, case),
         _ => None,
     }
 }
